@@ -1,1 +1,197 @@
-crate::list![];
+//! C06 (lexer and span layer): no token recogniser panics, loops or reports a
+//! span outside the input / off a character boundary, for EVERY UTF-8 string
+//! of at most N bytes.  Composition: `next_token` = skip whitespace, then the
+//! first recogniser that fires; every later lexer state is `(suffix of the
+//! input, original_length)`, so a recogniser-level step from an arbitrary input
+//! covers token streams of any length whose individual tokens fit N bytes.
+//!
+//! Stub (part of the claim): `Lexer::record_almost_keyword` -> no-op. It only
+//! records a "did you mean `record`?" hint; it interns the identifier through
+//! the global symbol table, which costs CBMC 13 s per insertion.
+use crate::cover;
+use crate::nd::{assume, Bytes};
+use roto::verif_api::{FStringToken, Lexer, Token};
+use std::ops::{ControlFlow, Range};
+
+pub fn noop_almost<'s>(_l: &mut Lexer<'s>, _x: &str, _span: Range<usize>)
+where
+    's: 's,
+{
+}
+
+/// stand-in for `next_token` when it recognises nothing: it may have skipped
+/// any amount of leading whitespace/comments (modelled as: any prefix ending
+/// on a character boundary), then declines.
+pub fn next_token_declines<'s>(l: &mut Lexer<'s>) -> ControlFlow<(Token<'s>, Range<usize>)>
+where
+    's: 's,
+{
+    let rest = l.verif_rest();
+    let n: usize = crate::nd::any();
+    assume(n <= rest.len() && rest.is_char_boundary(n));
+    l.verif_bump(n);
+    ControlFlow::Continue(())
+}
+
+fn check_span(s: &str, lx: &Lexer<'_>, span: &Range<usize>) {
+    assert!(span.start == 0, "token does not start at the cursor");
+    assert!(span.end > 0, "empty token: the lexer would not advance");
+    assert!(span.end <= s.len(), "span ends outside the input");
+    assert!(s.is_char_boundary(span.end), "span ends inside a character");
+    assert!(lx.verif_rest().len() == s.len() - span.end, "cursor and span disagree");
+}
+
+macro_rules! recogniser {
+    ($name:ident, $n:expr, $unwind:expr, $method:ident, $ascii:expr) => {
+        #[cfg_attr(kani, kani::proof)]
+        #[cfg_attr(kani, kani::unwind($unwind))]
+        #[cfg_attr(kani, kani::stub(roto::parser::lexer::Lexer::record_almost_keyword, noop_almost))]
+        pub fn $name() {
+            let b: Bytes<$n> = if $ascii { Bytes::any_ascii() } else { Bytes::any() };
+            if let Some(s) = b.as_str() {
+                let mut lx = Lexer::new(s);
+                match lx.$method() {
+                    Some((_tok, span)) => {
+                        check_span(s, &lx, &span);
+                        cover!(span.end == $n, "token_spans_whole_input");
+                    }
+                    None => {
+                        assert!(lx.verif_rest().len() == s.len(), "declined but consumed input");
+                        cover!(s.len() == $n, "declined_full_length_input");
+                    }
+                }
+            }
+        }
+    };
+}
+
+// every UTF-8 string of <= 3 bytes (quick tier)
+recogniser!(c06_ipv6_3, 3, 6, verif_ipv6, false);
+recogniser!(c06_ipv4_3, 3, 6, verif_ipv4, false);
+recogniser!(c06_two_char_3, 3, 6, verif_two_char_punctuation, false);
+recogniser!(c06_one_char_3, 3, 6, verif_one_char_punctuation, false);
+recogniser!(c06_as_number_3, 3, 6, verif_as_number, false);
+recogniser!(c06_hex_number_3, 3, 6, verif_hex_number, false);
+recogniser!(c06_number_3, 3, 6, verif_number, false);
+recogniser!(c06_f_string_3, 3, 6, verif_f_string, false);
+recogniser!(c06_string_3, 3, 6, verif_string, false);
+recogniser!(c06_char_3, 3, 6, verif_char, false);
+recogniser!(c06_keyword_or_ident_3, 3, 6, verif_keyword_or_ident, false);
+// thorough tier: 4 bytes (UTF-8) / 5 bytes (ASCII)
+recogniser!(c06_ipv6_4, 4, 7, verif_ipv6, false);
+recogniser!(c06_ipv4_4, 4, 7, verif_ipv4, false);
+recogniser!(c06_as_number_4, 4, 7, verif_as_number, false);
+recogniser!(c06_hex_number_4, 4, 7, verif_hex_number, false);
+recogniser!(c06_number_4, 4, 7, verif_number, false);
+recogniser!(c06_string_4, 4, 7, verif_string, false);
+recogniser!(c06_char_4, 4, 7, verif_char, false);
+recogniser!(c06_keyword_or_ident_4, 4, 7, verif_keyword_or_ident, false);
+recogniser!(c06_number_ascii_5, 5, 8, verif_number, true);
+recogniser!(c06_ipv4_ascii_5, 5, 8, verif_ipv4, true);
+
+macro_rules! whitespace {
+    ($name:ident, $n:expr, $unwind:expr) => {
+        #[cfg_attr(kani, kani::proof)]
+        #[cfg_attr(kani, kani::unwind($unwind))]
+        pub fn $name() {
+            let b: Bytes<$n> = Bytes::any();
+            if let Some(s) = b.as_str() {
+                let mut lx = Lexer::new(s);
+                lx.verif_skip_whitespace();
+                let rest = lx.verif_rest();
+                assert!(rest.len() <= s.len());
+                assert!(s.is_char_boundary(s.len() - rest.len()));
+                cover!(rest.len() < s.len(), "skipped_something");
+            }
+        }
+    };
+}
+whitespace!(c06_skip_whitespace_3, 3, 6);
+whitespace!(c06_skip_whitespace_4, 4, 7);
+
+macro_rules! fstring_part {
+    ($name:ident, $n:expr, $unwind:expr) => {
+        #[cfg_attr(kani, kani::proof)]
+        #[cfg_attr(kani, kani::unwind($unwind))]
+        pub fn $name() {
+            let b: Bytes<$n> = Bytes::any();
+            if let Some(s) = b.as_str() {
+                let mut lx = Lexer::new(s);
+                if let Some((tok, span)) = lx.f_string_part() {
+                    assert!(span.start == 0 && span.end <= s.len(), "part outside the input");
+                    assert!(s.is_char_boundary(span.end), "part ends inside a character");
+                    let text = match tok {
+                        FStringToken::StringEnd(t) => t,
+                        FStringToken::StringIntermediate(t) => t,
+                    };
+                    assert!(text.len() == span.end, "part text and span disagree");
+                    cover!(span.end >= 2, "multi_byte_part");
+                }
+            }
+        }
+    };
+}
+fstring_part!(c06_f_string_part_3, 3, 6);
+fstring_part!(c06_f_string_part_4, 4, 7);
+
+/// The error token: when no recogniser fires on a non-empty input, the span
+/// `next_inner` reports must lie inside the input on character boundaries
+/// (it is what `RotoReport` later slices the source with).
+/// `next_token` is replaced by `next_token_declines` (see above); the code
+/// under test is the real `next_inner`.
+macro_rules! err_span {
+    ($name:ident, $n:expr, $unwind:expr) => {
+        #[cfg_attr(kani, kani::proof)]
+        #[cfg_attr(kani, kani::unwind($unwind))]
+        #[cfg_attr(kani, kani::stub(roto::parser::lexer::Lexer::next_token, next_token_declines))]
+        pub fn $name() {
+            let b: Bytes<$n> = Bytes::any();
+            if let Some(s) = b.as_str() {
+                let mut lx = Lexer::new(s);
+                match lx.verif_next_inner() {
+                    Some((r, span)) => {
+                        assert!(r.is_err());
+                        assert!(span.start < span.end, "empty error span");
+                        assert!(span.end <= s.len(), "error span ends outside the input");
+                        assert!(s.is_char_boundary(span.start), "error span starts inside a character");
+                        assert!(s.is_char_boundary(span.end), "error span ends inside a character");
+                        cover!(span.end - span.start > 1, "multi_byte_offender");
+                    }
+                    None => assert!(lx.verif_rest().is_empty()),
+                }
+            }
+        }
+    };
+}
+err_span!(c06_err_span_3, 3, 6);
+err_span!(c06_err_span_4, 4, 7);
+
+crate::list![
+    c06_ipv6_3,
+    c06_ipv4_3,
+    c06_two_char_3,
+    c06_one_char_3,
+    c06_as_number_3,
+    c06_hex_number_3,
+    c06_number_3,
+    c06_f_string_3,
+    c06_string_3,
+    c06_char_3,
+    c06_keyword_or_ident_3,
+    c06_ipv6_4,
+    c06_ipv4_4,
+    c06_as_number_4,
+    c06_hex_number_4,
+    c06_number_4,
+    c06_string_4,
+    c06_char_4,
+    c06_keyword_or_ident_4,
+    c06_number_ascii_5,
+    c06_ipv4_ascii_5,
+    c06_skip_whitespace_3,
+    c06_skip_whitespace_4,
+    c06_f_string_part_3,
+    c06_f_string_part_4,
+    c06_err_span_3,
+    c06_err_span_4,
+];
